@@ -84,6 +84,11 @@ type Gen struct {
 	inFunc   int // nesting depth of function-like bodies (yield allowed)
 	inClass  int
 	inLoop   int
+	// LeadHashBang: the program starts with inline HTML whose first line begins with "#!"; it is only
+	// text when a real shebang line precedes it, so Render forces the shebang line for such programs.
+	LeadHashBang bool
+	// nestLeafKind selects the leaf of the operator-nest enumeration (opnest.go)
+	nestLeafKind int
 }
 
 // New creates a generator.
